@@ -56,7 +56,7 @@ $(GEN)/crypt.h: $(REPO)/lib/crypt.h.in $(REPO)/lib/hashes.conf $(REPO)/config.h 
 # ---- symbol redirection lists (library objects only)
 REDIR_MEM := malloc realloc free mmap munmap arc4random_buf __assert_fail abort \
              calloc posix_memalign aligned_alloc mmap64
-REDIR_THR := memcpy memmove memset explicit_bzero memcmp \
+REDIR_THR := memcpy memmove memset explicit_bzero memcmp bcmp snprintf \
              pthread_mutex_lock pthread_mutex_trylock pthread_mutex_unlock pthread_once \
              strlen strcspn strspn strncmp strchr strrchr strtoul
 # libc functions POSIX documents as MT-Unsafe, plus ordinary nondeterminism
@@ -69,8 +69,8 @@ redir = $(foreach s,$(1),--redefine-sym $(s)=sim_$(s))
 # ---- library objects per variant
 define LIBRULE
 $(B)/$(1)/%.o: $(REPO)/lib/%.c $(GENHDR) $(REPO)/config.h
-	$(2) $(LIBCPP) -MMD -MP -MT $$@ -MF $$@.d -c $$< -o $$@.raw.o
-	$(OBJCOPY) $(3) --globalize-symbol=nr_encrypt_ctx $$@.raw.o $$@
+	@echo CC[$(1)] $$(notdir $$<); $(2) $(LIBCPP) -MMD -MP -MT $$@ -MF $$@.d -c $$< -o $$@.raw.o
+	@$(OBJCOPY) $(3) --globalize-symbol=nr_encrypt_ctx $$@.raw.o $$@
 $(1)_LIBOBJ := $(addprefix $(B)/$(1)/,$(addsuffix .o,$(LIBBASE)))
 -include $(addprefix $(B)/$(1)/,$(addsuffix .o.d,$(LIBBASE)))
 endef
@@ -91,7 +91,7 @@ HHDR := $(wildcard $(SIM)/*.hh) $(wildcard $(SIM)/*.h)
 FAILTOK := $(or $(shell sed -n 's/^#define ENABLE_FAILURE_TOKENS  *//p' $(REPO)/config.h),0)
 HCPP := -std=c++17 -I$(GEN) -I$(SIM) -Wall -Wno-unused-function -Wno-unused-variable \
         -DENABLE_FAILURE_TOKENS=$(FAILTOK) -DREPO_DIR='"$(REPO)"' -DHASHES_ENABLED='"$(HASHES_ENABLED)"'
-HLIBS := -lpthread -lgcrypt
+HLIBS := -lpthread -lgcrypt -Wl,-z,now
 PRIMCPP := -DHAVE_CONFIG_H -DIN_LIBCRYPT -DPIC -I$(GEN) -I$(REPO) -I$(REPO)/lib -Wno-unknown-attributes -Wno-attributes
 $(B)/h/prim-asan.o: $(SIM)/prim.c $(GENHDR) $(wildcard $(REPO)/lib/*.h)
 	$(CLANG) $(PRIMCPP) -O1 -g -fsanitize=address -c $< -o $@
@@ -100,11 +100,11 @@ $(B)/h/prim-thr.o: $(SIM)/prim.c $(GENHDR) $(wildcard $(REPO)/lib/*.h)
 $(B)/h/prim-O0.o: $(SIM)/prim.c $(GENHDR) $(wildcard $(REPO)/lib/*.h)
 	$(GCC) $(PRIMCPP) -O0 -g -c $< -o $@
 
-$(B)/simcrypt-asan: $(HSRC) $(HHDR) $(asan_LIBOBJ) $(GENHDR) $(B)/h/prim-asan.o
+$(B)/simcrypt-asan: $(V)/Makefile $(HSRC) $(HHDR) $(asan_LIBOBJ) $(GENHDR) $(B)/h/prim-asan.o
 	$(CLANGXX) $(HCPP) -DSIM_ASAN -O1 -g -fno-omit-frame-pointer -fsanitize=address $(HSRC) $(B)/h/prim-asan.o $(asan_LIBOBJ) $(HLIBS) -o $@
-$(B)/simcrypt-thr: $(HSRC) $(SIM)/thr_rt.cc $(HHDR) $(thr_LIBOBJ) $(GENHDR) $(B)/h/prim-thr.o
+$(B)/simcrypt-thr: $(V)/Makefile $(HSRC) $(SIM)/thr_rt.cc $(HHDR) $(thr_LIBOBJ) $(GENHDR) $(B)/h/prim-thr.o
 	$(CLANGXX) $(HCPP) -DSIM_THR -O2 -g -fno-omit-frame-pointer $(HSRC) $(SIM)/thr_rt.cc $(B)/h/prim-thr.o $(thr_LIBOBJ) $(HLIBS) -o $@
-$(B)/simcrypt-O0: $(HSRC) $(HHDR) $(O0_LIBOBJ) $(GENHDR) $(B)/h/prim-O0.o
+$(B)/simcrypt-O0: $(V)/Makefile $(HSRC) $(HHDR) $(O0_LIBOBJ) $(GENHDR) $(B)/h/prim-O0.o
 	$(GXX) $(HCPP) -DSIM_O0 -O1 -g $(HSRC) $(B)/h/prim-O0.o $(O0_LIBOBJ) $(HLIBS) -o $@
 $(B)/refsrv: $(SIM)/refsrv.c $(ref_LIBOBJ) $(GENHDR)
 	$(CLANG) -O2 -g -I$(GEN) -I$(REPO) -I$(REPO)/lib $(SIM)/refsrv.c $(ref_LIBOBJ) -o $@
@@ -121,8 +121,8 @@ endef
 $(foreach v,$(RNGV),$(eval $(call RNGRULE,$(v))))
 RNGOBJ := $(foreach v,$(RNGV),$(B)/rng/grb$(v).o)
 RNG_LIBOBJ := $(filter-out $(B)/asan/util-get-random-bytes.o,$(asan_LIBOBJ))
-$(B)/rngsim: $(SIM)/rngsim.cc $(SIM)/util.cc $(SIM)/refclient.cc $(HHDR) $(RNGOBJ) $(RNG_LIBOBJ) $(GENHDR)
-	$(CLANGXX) $(HCPP) -DSIM_ASAN -DSIM_RNG -O1 -g -fsanitize=address $(SIM)/rngsim.cc $(SIM)/util.cc $(SIM)/refclient.cc $(RNGOBJ) $(RNG_LIBOBJ) -lpthread -o $@
+$(B)/rngsim: $(V)/Makefile $(HSRC) $(SIM)/rngdev.cc $(HHDR) $(RNGOBJ) $(RNG_LIBOBJ) $(GENHDR) $(B)/h/prim-asan.o
+	$(CLANGXX) $(HCPP) -DSIM_ASAN -DSIM_RNG -O1 -g -fno-omit-frame-pointer -fsanitize=address $(HSRC) $(SIM)/rngdev.cc $(B)/h/prim-asan.o $(RNGOBJ) $(RNG_LIBOBJ) $(HLIBS) -o $@
 
 # ---- identity of the tree under test and its external surface
 $(B)/tree.sha: $(LIBSRC) $(wildcard $(REPO)/lib/*.h) $(REPO)/lib/hashes.conf $(REPO)/config.h $(GEN)/.dir
